@@ -13,10 +13,19 @@ PrintAllReplay ==
     (KeepHist /\ phase = "idle" /\ steps > 1) =>
         PrintT(<<"REPLAY", ToJson([steps |-> hist, mech |-> mech])>>)
 
-\* The mechanism named by the environment variable MECH is unreachable.  Breadth-first search makes the
-\* counterexample a shortest history exhibiting it; the history is printed before the invariant fails.
-Target == IOEnv.MECH
-TargetUnreachable ==
-    ((phase \in {"idle", "dead"}) /\ Target \in mech) =>
-        (PrintT(<<"REPLAY", ToJson([steps |-> hist, mech |-> mech, dead |-> phase = "dead"])>>) /\ FALSE)
+\* A shortest history per mechanism, in one breadth-first run with one worker (MC_LspIncr_ce.cfg): the first state
+\* that exhibits a mechanism not seen before prints its history (registers 11.. remember which were seen); the
+\* search stops as soon as every mechanism of AllMechs has been seen (invariant StopWhenAllSeen fails: expected).
+\* A mechanism that is not reachable any more is simply never printed.
+MechNo(m) == CASE m = "ReuseTypedSibling" -> 11 [] m = "ReuseTypedDropsDiags" -> 12
+               [] m = "CancelledEditStaleTyped" -> 13 [] m = "StaleTokensOtherFile" -> 14
+               [] m = "DanglingDeclAfterGC" -> 15 [] m = "FailedEditStaleTyped" -> 16 [] OTHER -> 17
+CEInit == Init /\ \A i \in 11..17 : TLCSet(i, 0)
+NoteMechs ==
+    (phase \in {"idle", "dead"}) =>
+        \A m \in mech :
+            TLCGet(MechNo(m)) = 0 =>
+                /\ PrintT(<<"REPLAY", ToJson([steps |-> hist, mech |-> mech, target |-> m, dead |-> phase = "dead"])>>)
+                /\ TLCSet(MechNo(m), 1)
+StopWhenAllSeen == \E m \in AllMechs : TLCGet(MechNo(m)) = 0
 =============================================================================
